@@ -104,6 +104,16 @@ def cases(seed=0, thorough=False):
     a, b = nb(), nb()
     add("r = ds.Select(lambda x: %s).Select(\n    lambda y: %s\n)" % (body(a, "x"), body(b, "y")),
         ["lambda x: %s" % body(a, "x"), "lambda y: %s" % body(b, "y")], True, "D8 lambda on the line, next call opened at the line end (different argument names)")
+    # ---- the same, but same method AND same argument name: may be refused, must never record the neighbour
+    a, b = nb(), nb()
+    add("r = ds.Select(lambda e: %s).Select(\n    lambda e: %s\n)" % (body(a, "e"), body(b, "e")),
+        ["lambda e: %s" % body(a, "e"), "lambda e: %s" % body(b, "e")], False, "O12 same method and argument name, second call wrapped onto the next line")
+    a, b = nb(), nb()
+    add("r = ds.Select(lambda e: %s).Select(\n    lambda e: %s)" % (body(a, "e"), body(b, "e")),
+        ["lambda e: %s" % body(a, "e"), "lambda e: %s" % body(b, "e")], False, "O12 same method and argument name, second call wrapped, closing bracket on the same line")
+    a, b, c = nb(), nb(), nb()
+    add("r = ds.Select(lambda e: %s).Where(lambda j: %s > 2).Select(\n    lambda e: %s\n)" % (body(a, "e"), body(b, "j"), body(c, "e")),
+        ["lambda e: %s" % body(a, "e"), "lambda j: %s > 2" % body(b, "j"), "lambda e: %s" % body(c, "e")], False, "O12 same method and argument name, third call wrapped onto the next line")
     # ---- D1 with a body part of which the compiler folds away (no instruction is executed there)
     for bt in ("1 or {A}", "{A} if -True else {A} + 1", "({A}, 2)[0] if 0 else {A}"):
         a = nb()
